@@ -1,6 +1,408 @@
-//! C18 — placeholder until the check is written
+//! C18 — console interrupt services do exactly their documented I/O, within bounds.
+//!
+//! Everything runs through the real binary with scripted stdin. A generated program establishes the
+//! registers and the buffer, raises the interrupt, then prints registers, flags and the memory
+//! around the buffer (and the bottom and top of memory); stdout is matched byte for byte (service
+//! output) and field by field (prints) against the reference interpreter.
+
 use super::common::*;
-pub fn run(_tier: &Tier) -> i32 {
-    eprintln!("C18: not built yet");
-    2
+use crate::alu::*;
+use crate::ast::b::*;
+use crate::ast::*;
+use crate::cli::*;
+use crate::findings::*;
+use crate::refexec::phys;
+use rayon::prelude::*;
+use serde_json::json;
+use std::collections::{BTreeSet, HashMap};
+use std::sync::atomic::{AtomicU64, Ordering};
+
+#[derive(Clone)]
+struct Case {
+    site: String,
+    prog: Program,
+    stdin_lines: Vec<String>,
+    stdin_raw: String,
+    note: String,
+}
+
+/// stdin shapes: (what the reference sees as lines, raw bytes, name)
+fn stdin_shapes(cap_hint: usize) -> Vec<(Vec<String>, String, &'static str)> {
+    let eq: String = "abcdefghijklmnopqrstuvwxyz".chars().cycle().take(cap_hint.max(1)).collect();
+    let longer: String = "ABCDEFGHIJKLMNOPQRSTUVWXYZ0123456789".chars().cycle().take(cap_hint + 7).collect();
+    let huge: String = "0123456789".chars().cycle().take(300).collect();
+    vec![
+        (vec![], "".into(), "closed"),
+        (vec!["".into()], "\n".into(), "empty line"),
+        (vec!["xy".into()], "xy\n".into(), "short line"),
+        (vec![eq.clone()], format!("{}\n", eq), "line as long as the capacity"),
+        (vec![longer.clone()], format!("{}\n", longer), "line longer than the capacity"),
+        (vec!["abc".into()], "abc".into(), "no trailing newline"),
+        (vec!["pq".into(), "rs".into()], "pq\nrs\n".into(), "two lines"),
+        (vec![huge.clone()], format!("{}\n", huge), "300 characters"),
+        (vec!["h\u{e9}llo".into()], "h\u{e9}llo\n".into(), "non-ASCII (UTF-8) line"),
+    ]
+}
+
+fn set_seg(code: &mut Vec<Item>, seg: &str, v: u16) {
+    code.push(mov(r16("ax"), imm(v as i32)));
+    code.push(mov(sr(seg), r16("ax")));
+}
+
+/// physical addresses -> maximal contiguous runs, as print statements
+fn print_runs(code: &mut Vec<Item>, addrs: &BTreeSet<u32>) {
+    let v: Vec<u32> = addrs.iter().cloned().collect();
+    let mut i = 0;
+    while i < v.len() {
+        let mut j = i;
+        while j + 1 < v.len() && v[j + 1] == v[j] + 1 {
+            j += 1;
+        }
+        code.push(print(PrintKind::MemRange(v[i], v[j])));
+        i = j + 1;
+    }
+}
+
+fn epilogue(code: &mut Vec<Item>, window: &BTreeSet<u32>) {
+    code.push(print(PrintKind::Reg));
+    code.push(print(PrintKind::Flags));
+    print_runs(code, window);
+    code.push(print(PrintKind::MemRange(0, 47)));
+    code.push(print(PrintKind::MemRange(0xFFFD0, 0xFFFFF)));
+}
+
+/// distinct values in the registers the service does not use, so that a stray write shows
+fn others(code: &mut Vec<Item>, skip: &[&str]) {
+    for (r, v) in [("bx", 0x1B2Bu16), ("cx", 0x3C4C), ("dx", 0x5D6D), ("bp", 0x7E8E), ("si", 0x9FA0), ("di", 0xB1C2)] {
+        if !skip.contains(&r) {
+            code.push(mov(r16(r), imm(v as i32)));
+        }
+    }
+}
+
+fn base_data() -> Vec<DataDef> {
+    // patterned bytes at the bottom and at the top of memory, so that the epilogue's dumps are not all zero
+    let mut d = Vec::new();
+    for i in 0..48u32 {
+        d.push(db(None, ((i * 7 + 0x30) & 0xFF) as i32));
+    }
+    d.push(DataDef::Set(0xFFFD));
+    for i in 0..48u32 {
+        d.push(db(None, ((i * 11 + 0x61) & 0xFF) as i32));
+    }
+    d.push(DataDef::Set(0x0020));
+    d.push(DataDef::Str(None, W::B, "Hello, 8086 world! The quick brown fox.".into()));
+    d
+}
+
+fn int21_02(thorough: bool) -> Vec<Case> {
+    let dls: Vec<u32> = if thorough { (0..256).collect() } else { vec![0, 7, 9, 0x0A, 0x0D, 0x20, 0x41, 0x7E, 0x7F, 0x80, 0xE9, 0xFF] };
+    let mut v = Vec::new();
+    for dl in dls {
+        for al in [0x00u32, 0x55] {
+            let mut code = vec![label("start")];
+            code.push(z(ZeroOp::Stc));
+            others(&mut code, &["dx"]);
+            code.push(mov(r16("dx"), imm((0x4400 | dl) as i32)));
+            code.push(mov(r16("ax"), imm((0x0200 | al) as i32)));
+            code.push(int(0x21));
+            epilogue(&mut code, &BTreeSet::new());
+            // a second character directly afterwards (histories: two services in a row)
+            code.push(mov(r16("ax"), imm(0x0200)));
+            code.push(mov(r8("dl"), imm(0x2A)));
+            code.push(int(0x21));
+            code.push(print(PrintKind::Reg));
+            v.push(Case { site: "int 21h ah=02".into(), prog: Program { data: base_data(), code }, stdin_lines: vec![], stdin_raw: "".into(), note: format!("DL=0x{:02X} AL=0x{:02X}", dl, al) });
+        }
+    }
+    v
+}
+
+fn int21_01() -> Vec<Case> {
+    let mut v = Vec::new();
+    for (lines, raw, name) in stdin_shapes(5) {
+        for al in [0x00u32, 0xCC] {
+            let mut code = vec![label("start")];
+            code.push(z(ZeroOp::Std));
+            others(&mut code, &[]);
+            code.push(mov(r16("ax"), imm((0x0100 | al) as i32)));
+            code.push(int(0x21));
+            epilogue(&mut code, &BTreeSet::new());
+            // the next call reads the next line (or reports end of input with 0)
+            code.push(mov(r16("ax"), imm(0x01EE)));
+            code.push(int(0x21));
+            code.push(print(PrintKind::Reg));
+            // echo what was read
+            code.push(mov(r8("dl"), r8("al")));
+            code.push(mov(r8("ah"), imm(2)));
+            code.push(int(0x21));
+            code.push(print(PrintKind::Reg));
+            v.push(Case { site: "int 21h ah=01".into(), prog: Program { data: base_data(), code }, stdin_lines: lines.clone(), stdin_raw: raw.clone(), note: format!("stdin: {}; AL before=0x{:02X}", name, al) });
+        }
+    }
+    v
+}
+
+fn int21_0a(thorough: bool) -> Vec<Case> {
+    let mut v = Vec::new();
+    // (DS, DX): low; offset wrapping at 16 bits; crossing 2^20; buffer ending exactly at 0xFFFFF for capacity 5
+    let places: Vec<(u16, u16, &str)> = vec![
+        (0x0000, 0x0100, "low memory"),
+        (0x1000, 0xFFFE, "offset wraps at 16 bits"),
+        (0xFFFF, 0x000D, "crosses 2^20"),
+        (0xFFF0, 0x00F8, "capacity 5 ends at 0xFFFFF"),
+        (0xFFFF, 0xFFFF, "header split across the offset wrap at the top segment"),
+    ];
+    let caps: Vec<u32> = if thorough { vec![0, 1, 2, 5, 16, 254, 255] } else { vec![0, 1, 5, 255] };
+    for (ds, dx, pname) in places.iter() {
+        for cap in caps.iter() {
+            for (lines, raw, sname) in stdin_shapes(*cap as usize) {
+                let mut code = vec![label("start")];
+                // marker fill around the buffer: ES:DI = DS:DX-3, cap+10 bytes of 0xEE
+                let fill_len = cap + 10;
+                set_seg(&mut code, "es", *ds);
+                code.push(mov(r16("di"), imm(dx.wrapping_sub(3) as i32)));
+                code.push(mov(r16("cx"), imm(fill_len as i32)));
+                code.push(mov(r8("al"), imm(0xEE)));
+                code.push(z(ZeroOp::Cld));
+                code.push(strop(Some(Rep::Rep), StrOp::Stos, W::B));
+                set_seg(&mut code, "ds", *ds);
+                set_seg(&mut code, "es", 0x2222);
+                code.push(mov(r16("bx"), imm(*dx as i32)));
+                code.push(mov(ind(W::B, "bx"), imm(*cap as i32)));
+                code.push(z(ZeroOp::Stc));
+                code.push(z(ZeroOp::Std));
+                others(&mut code, &["dx"]);
+                code.push(mov(r16("dx"), imm(*dx as i32)));
+                code.push(mov(r16("ax"), imm(0x0A77)));
+                code.push(int(0x21));
+                let mut window = BTreeSet::new();
+                for k in 0..fill_len + 4 {
+                    window.insert(phys(*ds, dx.wrapping_sub(5).wrapping_add(k as u16)));
+                }
+                epilogue(&mut code, &window);
+                // the second line, if any, is still there for the next service
+                code.push(mov(r16("ax"), imm(0x0100)));
+                code.push(int(0x21));
+                code.push(print(PrintKind::Reg));
+                v.push(Case { site: "int 21h ah=0a".into(), prog: Program { data: base_data(), code }, stdin_lines: lines.clone(), stdin_raw: raw.clone(), note: format!("{} (DS=0x{:04X} DX=0x{:04X}), capacity {}, stdin: {}", pname, ds, dx, cap, sname) });
+            }
+        }
+    }
+    v
+}
+
+fn int10_0a(thorough: bool) -> Vec<Case> {
+    let mut v = Vec::new();
+    let als: Vec<u32> = if thorough { vec![0x41, 0x00, 0x0A, 0x20, 0x7F, 0x80, 0xE9, 0xFF, 0x09, 0x0D] } else { vec![0x41, 0x00, 0x0A, 0x80, 0xFF] };
+    let cxs: Vec<u32> = if thorough { vec![0, 1, 2, 5, 80, 300, 4096, 0xFFFF] } else { vec![0, 1, 5, 300] };
+    for al in als.iter() {
+        for cx in cxs.iter() {
+            let mut code = vec![label("start")];
+            code.push(z(ZeroOp::Stc));
+            others(&mut code, &["cx"]);
+            code.push(mov(r16("cx"), imm(*cx as i32)));
+            code.push(mov(r16("ax"), imm((0x0A00 | al) as i32)));
+            code.push(int(0x10));
+            epilogue(&mut code, &BTreeSet::new());
+            v.push(Case { site: "int 10h ah=0a".into(), prog: Program { data: base_data(), code }, stdin_lines: vec![], stdin_raw: "".into(), note: format!("AL=0x{:02X} CX={}", al, cx) });
+        }
+    }
+    v
+}
+
+fn int10_13(thorough: bool) -> Vec<Case> {
+    let mut v = Vec::new();
+    let dls: Vec<u32> = if thorough { vec![0, 1, 5, 79, 255] } else { vec![0, 1, 5, 255] };
+    let cxs: Vec<u32> = if thorough { vec![0, 1, 5, 39, 300, 4096] } else { vec![0, 1, 5, 39, 300] };
+    let places: Vec<(u16, u16, &str)> = vec![
+        (0x0020, 0x0000, "text at 0x200"),
+        (0x0000, 0x0200, "same text through ES=0"),
+        (0xFFFD, 0x0010, "patterned bytes, string crosses 2^20"),
+        (0x0010, 0xFFF8, "offset BP+i wraps at 16 bits"),
+        (0xFFFF, 0x000F, "last byte of memory then wrap to 0"),
+    ];
+    for (es, bp, pname) in places.iter() {
+        for dl in dls.iter() {
+            for cx in cxs.iter() {
+                let mut code = vec![label("start")];
+                set_seg(&mut code, "es", *es);
+                code.push(z(ZeroOp::Std));
+                others(&mut code, &["cx", "dx", "bp"]);
+                code.push(mov(r16("bp"), imm(*bp as i32)));
+                code.push(mov(r16("cx"), imm(*cx as i32)));
+                // DH (row) and BX (page, attribute) are ignored by the service
+                code.push(mov(r16("dx"), imm((0x0700 | dl) as i32)));
+                code.push(mov(r16("ax"), imm(0x1301)));
+                code.push(int(0x10));
+                epilogue(&mut code, &BTreeSet::new());
+                v.push(Case { site: "int 10h ah=13".into(), prog: Program { data: base_data(), code }, stdin_lines: vec![], stdin_raw: "".into(), note: format!("{} (ES=0x{:04X} BP=0x{:04X}) DL={} CX={}", pname, es, bp, dl, cx) });
+            }
+        }
+    }
+    v
+}
+
+fn unsupported() -> Vec<Case> {
+    let mut v = Vec::new();
+    for (n, ok) in [(0x10u8, vec![0x0Au32, 0x13]), (0x21u8, vec![0x01, 0x02, 0x0A])] {
+        for ah in 0..256u32 {
+            if ok.contains(&ah) {
+                continue;
+            }
+            // placement of the interrupt: first, middle or last line of the program
+            let mut code = vec![label("start")];
+            let place = ah % 3;
+            if place > 0 {
+                code.push(z(ZeroOp::Stc));
+                code.push(print(PrintKind::Flags));
+            }
+            code.push(mov(r16("ax"), imm(((ah << 8) | 0x41) as i32)));
+            code.push(mov(r16("cx"), imm(3)));
+            code.push(int(n));
+            if place < 2 {
+                // nothing after the report may execute
+                code.push(print(PrintKind::Reg));
+                code.push(mov(r16("ax"), imm(0x0241)));
+                code.push(int(0x21));
+            }
+            v.push(Case { site: format!("int {:02x}h unsupported ah", n), prog: Program { data: vec![], code }, stdin_lines: vec!["zz".into()], stdin_raw: "zz\n".into(), note: format!("AH=0x{:02X}", ah) });
+        }
+    }
+    v
+}
+
+/// histories: every ordered pair of services in one program, sharing one stdin
+fn pairs() -> Vec<Case> {
+    let mut v = Vec::new();
+    // each service as a code fragment using the buffer at DS:0x0300 (DS=0)
+    let frag = |k: usize, code: &mut Vec<Item>| match k {
+        0 => {
+            code.push(mov(r16("ax"), imm(0x0100)));
+            code.push(int(0x21));
+        }
+        1 => {
+            code.push(mov(r8("dl"), r8("al")));
+            code.push(mov(r8("ah"), imm(2)));
+            code.push(int(0x21));
+        }
+        2 => {
+            code.push(mov(r16("dx"), imm(0x0300)));
+            code.push(mov(direct(W::B, 0x0300), imm(6)));
+            code.push(mov(r8("ah"), imm(0x0A)));
+            code.push(int(0x21));
+        }
+        3 => {
+            code.push(mov(r16("cx"), imm(3)));
+            code.push(mov(r16("ax"), imm(0x0A2D)));
+            code.push(int(0x10));
+        }
+        _ => {
+            // print the buffered text: CX = stored count, ES:BP = 0:0x0302
+            code.push(mov(r16("cx"), imm(0)));
+            code.push(mov(r8("cl"), direct(W::B, 0x0301)));
+            code.push(mov(r16("bp"), imm(0x0302)));
+            code.push(mov(r8("dl"), imm(2)));
+            code.push(mov(r8("ah"), imm(0x13)));
+            code.push(int(0x10));
+        }
+    };
+    let names = ["21h/01", "21h/02", "21h/0a", "10h/0a", "10h/13"];
+    let stdins: Vec<(Vec<String>, String)> = vec![
+        (vec!["first".into(), "second line".into()], "first\nsecond line\n".into()),
+        (vec!["only".into()], "only\n".into()),
+        (vec![], "".into()),
+    ];
+    for a in 0..5 {
+        for b in 0..5 {
+            for (lines, raw) in stdins.iter() {
+                let mut code = vec![label("start")];
+                frag(a, &mut code);
+                code.push(print(PrintKind::Reg));
+                frag(b, &mut code);
+                let mut w = BTreeSet::new();
+                for k in 0x02F8..0x0310u32 {
+                    w.insert(k);
+                }
+                epilogue(&mut code, &w);
+                v.push(Case { site: "service pair".into(), prog: Program { data: base_data(), code }, stdin_lines: lines.clone(), stdin_raw: raw.clone(), note: format!("{} then {}", names[a], names[b]) });
+            }
+        }
+    }
+    v
+}
+
+pub fn run(tier: &Tier) -> i32 {
+    let rep_o = Reporter::new("C18", tier.name());
+    let c_o = Counters::default();
+    let rep = &rep_o;
+    let c = &c_o;
+    ensure_bin();
+    let mut cases = Vec::new();
+    let mut groups: Vec<(&str, usize)> = Vec::new();
+    let mut add = |name: &'static str, v: Vec<Case>, cases: &mut Vec<Case>, groups: &mut Vec<(&str, usize)>| {
+        groups.push((name, v.len()));
+        cases.extend(v);
+    };
+    add("int21_02", int21_02(tier.thorough), &mut cases, &mut groups);
+    add("int21_01", int21_01(), &mut cases, &mut groups);
+    add("int21_0a", int21_0a(tier.thorough), &mut cases, &mut groups);
+    add("int10_0a", int10_0a(tier.thorough), &mut cases, &mut groups);
+    add("int10_13", int10_13(tier.thorough), &mut cases, &mut groups);
+    add("unsupported_ah", unsupported(), &mut cases, &mut groups);
+    add("service_pairs", pairs(), &mut cases, &mut groups);
+    let mb: HashMap<String, Vec<Item>> = HashMap::new();
+    let out_bytes = AtomicU64::new(0);
+    let unsup = AtomicU64::new(0);
+    let dos_mode_used = AtomicU64::new(0);
+    cases.par_iter().for_each(|cs| {
+        let src = render(&cs.prog);
+        // the output cap must hold 65535 characters plus the dumps
+        let (rr, out, mut res) = cli_conformance_raw(&src, &cs.prog, &mb, &cs.stdin_lines, &cs.stdin_raw, false, 5000, false, false);
+        if res.is_some() && cs.site.contains("0a") {
+            // the DOS-style encoding of the buffered-input service is admissible as well
+            let (_, _, res2) = cli_conformance_raw(&src, &cs.prog, &mb, &cs.stdin_lines, &cs.stdin_raw, false, 5000, true, false);
+            if res2.is_none() {
+                res = None;
+                dos_mode_used.fetch_add(1, Ordering::Relaxed);
+            }
+        }
+        c.add_exec(1);
+        for e in rr.events.iter() {
+            match e {
+                crate::refprog::Ev::Out(b) => {
+                    out_bytes.fetch_add(b.len() as u64, Ordering::Relaxed);
+                }
+                crate::refprog::Ev::Unsupported { .. } => {
+                    unsup.fetch_add(1, Ordering::Relaxed);
+                }
+                _ => {}
+            }
+        }
+        c.outcome(&format!("{:?}/{}", rr.stop, if res.is_none() { "conforms" } else { "differs" }));
+        report_cli(rep, &cs.site, res, &src, &cs.stdin_lines, false, &out, json!({"what": cs.note, "stdin_raw": cs.stdin_raw}));
+    });
+    for cs in cases.iter().step_by(cases.len() / 10 + 1) {
+        let src = render(&cs.prog);
+        let shown: String = src.lines().filter(|l| !l.starts_with("db ")).collect::<Vec<_>>().join("\n");
+        c.sample(json!({"site": cs.site, "note": cs.note, "source_without_db_lines": shown, "stdin_raw": cs.stdin_raw}));
+    }
+    c.states.fetch_add(cases.len() as u64, Ordering::Relaxed);
+    if out_bytes.load(Ordering::Relaxed) < 10_000 || unsup.load(Ordering::Relaxed) < 500 {
+        eprintln!("MACHINERY: C18 explored too little (service output bytes {}, unsupported {})", out_bytes.load(Ordering::Relaxed), unsup.load(Ordering::Relaxed));
+        return 2;
+    }
+    let mut cov = Coverage::default();
+    cov.exhaustive = true;
+    cov.rule = "every run is the real binary with a scripted stdin (pipe closed after the script). INT 21h/02: DL over 12 (thorough: all 256) values x 2 prior AL. INT 21h/01: 9 stdin shapes (closed, empty line, short, exactly capacity, longer, no trailing newline, two lines, 300 characters, UTF-8) x 2 prior AL, followed by a second read and an echo. INT 21h/0Ah: 5 buffer placements (low, offset wrap at 16 bits, crossing 2^20, ending exactly at 0xFFFFF, header split by the wrap) x capacities {0,1,5,255} (thorough: 7 values) x the 9 stdin shapes, the buffer surrounded by 0xEE markers. INT 10h/0Ah: AL x CX lattice (thorough up to CX=65535). INT 10h/13h: 5 (ES,BP) placements incl. strings crossing 2^20 and BP+i wrapping at 16 bits x DL x CX. Every AH value 0..255 other than the supported ones for both interrupts, at the first / a middle / the last line. All 25 ordered pairs of services x 3 stdin scripts. After each service the program prints all registers, the flags, the marker window around the buffer, the first 48 and the last 48 bytes of memory; service output is matched byte for byte and every printed field against the reference state".into();
+    cov.bounds = json!({"groups": groups.iter().map(|(n, k)| json!({"group": n, "runs": k})).collect::<Vec<_>>(), "service_output_bytes_matched": out_bytes.load(Ordering::Relaxed), "unsupported_reports_checked": unsup.load(Ordering::Relaxed), "cases_conforming_only_in_dos_encoding": dos_mode_used.load(Ordering::Relaxed), "tier": tier.name()});
+    cov.assumptions = common_assumptions();
+    cov.assumptions.push("characters >= 0x80 may be written as the raw byte or as the UTF-8 encoding of the same code point".into());
+    cov.assumptions.push("INT 21h/0Ah: the line terminator is not part of the line; admissible encodings: count = min(length, capacity) with exactly those bytes stored, or the DOS encoding (capacity includes an uncounted carriage return stored after the text); anything else, and any change outside the buffer, is a violation. INT 21h/01h on an empty line returns the newline character, at end of input 0".into());
+    cov.assumptions.push("memory effects are observed through print windows (marker area around the buffer, first and last 48 bytes); a stray write elsewhere in the 1 MB is outside what this CLI-level check can see (the services live in the binary crate and cannot be called in-process)".into());
+    cov.assumptions.push("stdin that is not valid UTF-8 is not enumerated".into());
+    cov.cli_runs = CLI_RUNS.load(Ordering::Relaxed);
+    cov.distinct_nontrivial = cases.len() as u64;
+    let cov = finish_cov(c, cov);
+    rep.finish(cov)
 }
